@@ -59,6 +59,7 @@ type oblReport struct {
 	Status  string  `json:"status"`
 	Solver  string  `json:"solver,omitempty"`
 	Seconds float64 `json:"seconds"`
+	MaxCase float64 `json:"slowest_case_seconds,omitempty"`
 }
 
 var (
@@ -448,7 +449,7 @@ func cmdCheck(args []string) int {
 			continue
 		}
 		nObl++
-		rep := oblReport{Name: r.Obl.Name, Clause: r.Obl.Src, Pos: r.Obl.Pos, Status: r.Status, Solver: r.Solver, Seconds: round3(r.Seconds)}
+		rep := oblReport{Name: r.Obl.Name, Clause: r.Obl.Src, Pos: r.Obl.Pos, Status: r.Status, Solver: r.Solver, Seconds: round3(r.Seconds), MaxCase: round3(r.MaxCase)}
 		if r.Status == "unsat" {
 			nDis++
 			bySolver[r.Solver]++
